@@ -66,7 +66,7 @@ func payloadLens(thorough bool) []int {
 
 func TestCheck(t *testing.T) {
 	r := vp.New("C12", "exploration",
-		"nested loops: payload lengths x passphrases for round trip and determinism; for each ciphertext of a sub-grid every truncation length and every single-bit flip and every other passphrase; for every passphrase length 1..136 (thorough 1..264) every one-bit neighbour at every byte position (thorough: every bit) and the one-byte shorter / longer neighbours, through DecryptAES, DecryptValueKey and DecryptMetadata; every nonce length 0..16; value keys for 4 key types x context-ID lengths 0..64; second hash over 6 hash functions; every call sequence of length <=4 over encrypt/decrypt/second-hash of 3 pairs (history determinism, results scribbled over after use); every index of 2 multihashes x subsets of 3 records through the dhash functions and DHashClient.Find, with every stored value truncated to every length; the same workflow over the HTTP dhstore client with metadata of 1 .. 1024 bytes (every length around the encoded-size thresholds near the maximum) and context IDs of 0 / 63 / 64 bytes. Non-trivial: everything except zero-length payload with zero-length passphrase.",
+		"nested loops: payload lengths x passphrases for round trip and determinism; for each ciphertext of a sub-grid every truncation length and every single-bit flip and every other passphrase, each rejection followed by a decryption of the genuine ciphertext; for every passphrase length 1..136 (thorough 1..264) every one-bit neighbour at every byte position (thorough: every bit) and the one-byte shorter / longer neighbours, through DecryptAES, DecryptValueKey and DecryptMetadata; every nonce length 0..16; value keys for 4 key types x context-ID lengths 0..64, split right away and split after a whole batch of 65 keys was created; second hash over 6 hash functions; every call sequence of length <=4 over encrypt/decrypt/second-hash of 3 pairs (history determinism, results scribbled over after use); every index of 2 multihashes x subsets of 3 records through the dhash functions and DHashClient.Find, with every stored value truncated to every length; the same workflow over the HTTP dhstore client with metadata of 1 .. 1024 bytes (every length around the encoded-size thresholds near the maximum) and context IDs of 0 / 63 / 64 bytes. Non-trivial: everything except zero-length payload with zero-length passphrase.",
 		"patterned payload/passphrase bytes; only single-bit flips and truncations of ciphertexts (other alterations rest on AES-GCM authentication, trusted)",
 		"the find workflow is driven through an in-memory DHStoreAPI and, for a subset, through the HTTP dhstore client and the provider cache over an in-memory network",
 	)
@@ -146,6 +146,7 @@ func TestCheck(t *testing.T) {
 	checkNeighbours(r, thorough)
 	// 4. value keys
 	checkValueKeys(r, thorough)
+	checkValueKeysHeld(r)
 	// 5. second hash
 	checkSecondHash(r)
 	// 6. history determinism
@@ -242,6 +243,7 @@ func checkTamper(r *vp.Recorder, key string, payload []byte, p, other pass) {
 			r.Violation(w.name+":encrypt-error", key, err.Error(), nil)
 			continue
 		}
+		pristine := append([]byte(nil), ct...)
 		try := func(kind string, in []byte, pw []byte) {
 			r.Eval(fmt.Sprintf("%s|%s|%s|%x", key, w.name, kind, in), true)
 			var out []byte
@@ -262,6 +264,11 @@ func checkTamper(r *vp.Recorder, key string, payload []byte, p, other pass) {
 				return
 			}
 			r.Outcome("rejected")
+			// a rejected input leaves nothing behind: the genuine ciphertext (a
+			// fresh copy of it) decrypts to the payload right afterwards
+			if out2, err2 := w.dec(append([]byte(nil), pristine...), p.b); err2 != nil || !bytes.Equal(out2, payload) {
+				r.Violation("Decrypt"+w.name+":genuine-ciphertext-fails-after-a-rejected-one:"+kind, key, fmt.Sprintf("after a %s input was rejected, the genuine ciphertext decrypts to %d bytes, err %v (payload %d bytes)", kind, len(out2), err2, len(payload)), nil)
+			}
 		}
 		for cut := 0; cut < len(ct); cut++ {
 			try("truncation", ct[:cut], p.b)
@@ -368,6 +375,42 @@ func checkValueKeys(r *vp.Recorder, thorough bool) {
 			}
 		}
 	}
+}
+
+// checkValueKeysHeld: all value keys of a batch are created first (as when a
+// store is populated) and split only afterwards: a key a caller holds is not
+// affected by the keys created after it.
+func checkValueKeysHeld(r *vp.Recorder) {
+	key := "vk-held"
+	if !r.Mine(key) {
+		return
+	}
+	r.Eval(key, true)
+	type item struct {
+		id  peer.ID
+		ctx []byte
+		vk  []byte
+	}
+	for _, order := range []string{"growing", "shrinking"} {
+		var items []item
+		for i := 0; i <= 64; i++ {
+			n := i
+			if order == "shrinking" {
+				n = 64 - i
+			}
+			id := fixture.Key(fixture.KeyTypes[i%len(fixture.KeyTypes)], i%2).ID
+			ctx := fixture.Bytes(n, byte(0x30+i))
+			items = append(items, item{id, ctx, dhash.CreateValueKey(id, ctx)})
+		}
+		for i, it := range items {
+			pid, got, err := dhash.SplitValueKey(it.vk)
+			if err != nil || pid != it.id || !bytes.Equal(got, it.ctx) {
+				r.Violation("ValueKey:held-key-changed-by-later-keys", key, fmt.Sprintf("%s batch: value key %d of 65, split after the whole batch was created, gives (%s, %d bytes, %v), built from (%s, %d bytes)", order, i, pid, len(got), err, it.id, len(it.ctx)), nil)
+				return
+			}
+		}
+	}
+	r.Outcome("vk-held-ok")
 }
 
 func checkSecondHash(r *vp.Recorder) {
